@@ -1987,6 +1987,9 @@ def features(case, ob):
                     f.append("wprocs:Popen with returncode stored before the call")
         if any(t for _, t in case["list"]):
             f.append("wprocs:equal-not-identical objects")
+        if ob.get("kind") == "ok" and ob.get("cbSeen"):
+            f.append("wprocs:callback-time view recorded (returncode%s)" % (
+                " + gone membership" if all(g is not None for _, _, g in ob["cbSeen"]) else ""))
         if case["fam"].get("enum"):
             f.append("wprocs:enum")
             if ob.get("kind") == "ok":
